@@ -88,13 +88,29 @@ func LoadRepo() (*Loaded, error) {
 		ld.AllFns = append(ld.AllFns, fn)
 		k := funcKey(fn)
 		if k != "" {
-			if old, ok := ld.Funcs[k]; !ok || (old.Synthetic != "" && fn.Synthetic == "") {
+			if old, ok := ld.Funcs[k]; !ok || funcRank(fn) < funcRank(old) || (funcRank(fn) == funcRank(old) && fn.String() < old.String()) {
 				ld.Funcs[k] = fn
 			}
 		}
 	}
 	sort.Slice(ld.AllFns, func(i, j int) bool { return ld.AllFns[i].String() < ld.AllFns[j].String() })
 	return ld, nil
+}
+
+// funcRank orders functions sharing a key: declared > pointer-receiver wrapper > other synthetic.
+func funcRank(fn *ssa.Function) int {
+	if fn.Synthetic == "" {
+		return 0
+	}
+	if r := fn.Signature.Recv(); r != nil {
+		if _, ok := r.Type().(*types.Pointer); ok && strings.HasPrefix(fn.Synthetic, "wrapper") {
+			return 1
+		}
+	}
+	if strings.HasPrefix(fn.Synthetic, "wrapper") {
+		return 2
+	}
+	return 3
 }
 
 // funcKey gives a stable short key: "gedcom.Date.Time", "gedcom.NewDateRange",
